@@ -53,3 +53,20 @@ claim("C13", PR, TECH_PR,
       "refused under every strategy, format, key and randomness (C13_reserved_rejected); claims without such members are never refused for "
       "that reason (C13_no_false_alarm). Reserved names are planted at every position of generated trees, with the unplanted control.",
       NOTE_PR % ("C13", "no idealisation involved"))
+claim("C14", PR, TECH_PR,
+      "Proved (logic half): an issuance consumes one stream position per disclosure and per decoy (C14_one_draw_each), consecutive issuances "
+      "consume disjoint segments, and for any number of threads with their own streams and ANY interleaving all salts and decoy pre-images of "
+      "all credentials are pairwise distinct when the stream elements are (C14_any_schedule); a salt is the 22-character base64url text of "
+      "SALT_LEN = 16 bytes, >= 128 bits, with SALT_LEN regenerated from the source (C14_salt_shape); every embedded digest is H of the "
+      "disclosure's base64url text (C14_digest_of_text). Partial: that ThreadRng is a properly seeded CSPRNG with independent per-thread "
+      "state is a runtime fact no executable model exhibits; the run covers it by observation: 1-16 threads, every logged draw decoded, all "
+      "salts and decoy digests of the run compared pairwise, the model replayed on the logged draws, per-bit frequency within 8 sigma.",
+      NOTE_PR % ("C14", "PARTIAL: CSPRNG quality / thread-local independence are observed, not proved; premise of the theorems: pairwise distinct stream elements"))
+claim("C16", PR, TECH_PR,
+      "Theorems about the model of the mock_salts build: the queue loses exactly one salt per disclosure from the front in creation order "
+      "(C16_consumes_in_order); issuance is a function of claims, strategy and queue and, with decoys off, independent of the random streams "
+      "(C16_deterministic, C16_stream_independent); the Python-style spacing scanner equals printing with ', ' / ': ' separators and the spaced "
+      "disclosure text parses back to exactly [salt, name?, value] for every value, including commas, colons, brackets, quotes, backslashes, "
+      "runs of spaces and non-BMP characters (C16_values_preserved*). The run (harness built with the feature) checks consumption, "
+      "byte-identity over repeated issuances, value recovery through holder and verifier, and byte-for-byte agreement with the model.",
+      NOTE_PR % ("C16", "scope of the queue: pairwise distinct salts over the base64url alphabet (DESIGN.md 6 C16); nesting depth < 127 for the codec law"))
